@@ -352,4 +352,9 @@ def replay(ctx, path):
     if case is None: return 1
     r = native.run_cases(native.build(), [case])[0]
     print(json.dumps(r)[:600])
-    return 1
+    if 'panic' in r or 'hang' in r or 'abort' in r: return 1
+    loc = {bytes.fromhex(k): bytes.fromhex(v) for k, v in case.get('localized', [])}
+    want = spec_dis(case['rec'], loc, case.get('def') is not None)
+    got = bytes.fromhex(r['ok'])
+    print('displays as %r, the documented rules give %r' % (got, want))
+    return 1 if (want is not None and want != got) else 0
